@@ -21,7 +21,7 @@ ASSUMPTIONS = ["liveness is restated as bounded progress; a watchdog timeout wit
 FLOORS = {"timer_evaluations": {"quick": 1500, "thorough": 30000}, "requests_honoured": {"quick": 1200, "thorough": 25000},
           "stops_checked": {"quick": 40, "thorough": 800}, "stops_while_waiting": {"quick": 15, "thorough": 300},
           "due_alarms": {"quick": 30, "thorough": 500}, "lagging_runs": {"quick": 20, "thorough": 400},
-          "pushes_while_waiting_checked": {"quick": 300, "thorough": 5000}, "idle_stops_checked": {"quick": 8, "thorough": 150}, "lagging_bursts_of_1024_steps": {"quick": 5, "thorough": 100},
+          "pushes_while_waiting_checked": {"quick": 300, "thorough": 5000}, "idle_stops_checked": {"quick": 8, "thorough": 150}, "stops_requested_during_the_start_phase": {"quick": 8, "thorough": 150}, "lagging_bursts_of_1024_steps": {"quick": 5, "thorough": 100},
           "push_source_timers_honoured": {"quick": 25, "thorough": 400}, "push_source_timers_with_earlier_push": {"quick": 10, "thorough": 150}}
 
 
@@ -50,6 +50,16 @@ def gen(rng, k, seed):
                   end_ms=20, start_past_ms=rng.choice([30, 100]), stop="none")
         kv.pop("delays", None)
         kv["lag_burst"] = 1
+        return Scenario(f"c17_{seed}_{k}", kv)
+    if rng.random() < 0.12:
+        # the stop request arrives while the graph is still STARTING: from a node's own start hook, or from another thread while a
+        # start hook is slow. The run must end without working through its window (at most one cycle after the request)
+        n = len(timers)
+        kv["stop"] = f"instart:{rng.randrange(n)}" if rng.random() < 0.5 else f"slowstart:{rng.randrange(n)}:{rng.choice([5, 20])}"
+        kv.update(end_ms=rng.choice([300, 600]), start_past_ms=0)
+        if not any(t.startswith("chain") for t in timers):
+            kv["timers"] = kv["timers"] + ";chain:2000:100"
+        kv["stop_in_start"] = 1
         return Scenario(f"c17_{seed}_{k}", kv)
     if rng.random() < 0.15:
         # a long, mostly idle run stopped early: the only thing that can end it in time is the stop request itself
@@ -212,6 +222,7 @@ def _check(sc, tr, rc):
         C["stops_before_run_entered"] = 1
     elif tr.stop:
         C["stops_checked"] = 1
+        C["stops_requested_during_the_start_phase"] = 1 if kv.get("stop_in_start") else 0
         C["idle_stops_checked"] = 1 if kv.get("idle_stop") else 0
         later = sorted({t[1] for t in T if t[3] > stop_ret})
         if len(later) > 1:
